@@ -4,6 +4,7 @@ import (
 	"fmt"
 	"math"
 	"math/big"
+	"sort"
 	"strconv"
 	"strings"
 
@@ -54,6 +55,36 @@ func (rn *runner) reducedCase(x *apd.Decimal) {
 	})
 }
 
+// tightBitLengths returns the n bit lengths bl <= max for which bl*log10(2) is closest to an integer, from
+// above and from below (computed with 300-bit floats: exact enough for every bl considered).
+func tightBitLengths(max, n int) []int {
+	l2 := new(big.Float).SetPrec(300)
+	// log10(2) to 80 digits
+	l2.SetString("0.30102999566398119521373889472449302676818988146210854131042746112710818927442450948")
+	type cand struct {
+		bl   int
+		dist float64
+	}
+	var cs []cand
+	for bl := 129; bl <= max; bl++ {
+		x := new(big.Float).SetPrec(300).Mul(l2, big.NewFloat(float64(bl)))
+		ip, _ := x.Int(nil)
+		fr, _ := new(big.Float).Sub(x, new(big.Float).SetInt(ip)).Float64()
+		d := fr
+		if 1-fr < d {
+			d = 1 - fr
+		}
+		cs = append(cs, cand{bl, d})
+	}
+	sort.Slice(cs, func(i, j int) bool { return cs[i].dist < cs[j].dist })
+	var out []int
+	for i := 0; i < n && i < len(cs); i++ {
+		out = append(out, cs[i].bl)
+	}
+	sort.Ints(out)
+	return out
+}
+
 func (rn *runner) streamDigits(g *gen, thorough bool) {
 	one := big.NewInt(1)
 	// every bit length 1..maxbl at 2^(k-1), 2^k-1, and the decimal boundaries inside, both signs
@@ -101,6 +132,29 @@ func (rn *runner) streamDigits(g *gen, thorough bool) {
 		rn.numDigitsCase(v, "pow2-large")
 		rn.numDigitsCase(new(big.Int).Sub(v, one), "pow2-large")
 		rn.numDigitsCase(new(big.Int).Neg(v), "pow2-large-neg")
+	}
+	// the bit lengths at which a digit count derived from the bit length is tightest: 2^bl just above (or
+	// 2^bl - 1 just below) a power of ten. Any estimate bl*log10(2) with a truncated or rounded constant
+	// goes wrong first here.
+	maxTight, nTight := 60000, 40
+	if thorough {
+		maxTight, nTight = 120000, 150
+	}
+	for _, bl := range tightBitLengths(maxTight, nTight) {
+		k := int(float64(bl) * 0.30102999566398119521)
+		for _, j := range []int{k - 1, k, k + 1} {
+			if j < 1 {
+				continue
+			}
+			p := pow10(j)
+			for _, v := range []*big.Int{p, new(big.Int).Sub(p, one), new(big.Int).Add(p, one)} {
+				rn.numDigitsCase(v, "tight-pow10")
+				rn.numDigitsCase(new(big.Int).Neg(v), "tight-pow10-neg")
+			}
+		}
+		v := new(big.Int).Lsh(one, uint(bl))
+		rn.numDigitsCase(v, "tight-pow2")
+		rn.numDigitsCase(new(big.Int).Sub(v, one), "tight-pow2")
 	}
 	// random
 	for i := 0; i < rn.n; i++ {
